@@ -429,7 +429,7 @@ func (x *Exec) scanInstr(st *State, fr *Frame, ins ssa.Instruction, ws *writeSet
 func (x *Exec) scanCall(st *State, fr *Frame, call *ssa.CallCommon, ws *writeSet, depth int) {
 	if call.IsInvoke() {
 		key := ifaceMethodKey(call.Value.Type(), call.Method)
-		if c := x.db.Funcs[key]; c != nil {
+		if c := x.contractOf(key); c != nil {
 			x.scanContractAssigns(c, key, nil, ws)
 			return
 		}
@@ -502,7 +502,7 @@ func (x *Exec) scanFuncValue(st *State, fr *Frame, v ssa.Value) (Value, bool) {
 
 func (x *Exec) scanStaticCallee(st *State, fr *Frame, fn *ssa.Function, binds []Value, args []ssa.Value, ws *writeSet, depth int) {
 	key := funcKey(fn)
-	c := x.db.Funcs[key]
+	c := x.contractOf(key)
 	if c != nil && !c.Inline {
 		x.scanContractAssigns(c, key, fn, ws)
 		return
